@@ -23,6 +23,24 @@ def gen_scenario(R, maxplugs):
         plugs.append((i, R.randrange(nh), parent))
     failing = [h for h in range(nh) if R.random() < 0.2]
     cmds = []
+    if n >= 3 and R.random() < 0.35:
+        # a history: everything switched on top-down one plug at a time, then ancestors switched off and on again and single levels
+        # brought back, with stat of everything in between - stale state below a switched-off ancestor must never resurface
+        failing = [] if R.random() < 0.7 else failing
+        depth = {}
+        for (i, h, par) in plugs: depth[i] = 0 if par < 0 else depth[par] + 1
+        order = sorted(range(n), key=lambda i: depth[i])
+        for i in order: cmds.append(('on', [i]))
+        cmds.append(('stat', list(range(n))))
+        nonleaf = [i for i in range(n) if any(par == i for (_, _, par) in plugs)]
+        for _ in range(R.randint(3, 9)):
+            r = R.random()
+            if nonleaf and r < 0.3: cmds.append(('off', [R.choice(nonleaf)]))
+            elif r < 0.7: cmds.append(('on', [R.randrange(n)]))
+            elif r < 0.8: cmds.append(('off', [R.randrange(n)]))
+            else: cmds.append(('stat', list(range(n))))
+        cmds.append(('stat', list(range(n))))
+        return dict(plugs=plugs, nh=nh, failing=failing, cmds=cmds)
     for _ in range(R.randint(3, 9)):
         r = R.random()
         if r < 0.06:
